@@ -779,6 +779,11 @@ func (env *SpecEnv) evalCall(st, old *State, x *ast.CallExpr) Val {
 	// predicate or spec function?
 	rp := env.resPkg()
 	bare := name
+	if pk, nm, ok := strings.Cut(name, "."); ok {
+		if p := env.lookupPkgName(pk); p != nil {
+			rp, bare = p.Path(), nm
+		}
+	}
 	if p, ok := u.eng.specs.Preds[rp+"."+bare]; ok {
 		return env.expandPred(st, old, p, x)
 	}
@@ -1151,13 +1156,17 @@ func (c *ExecCtx) runGhostAnchors(st *State, s ast.Stmt, when string) {
 }
 
 func (c *ExecCtx) runNamedAnchor(st *State, anchor string, pos token.Pos) {
+	c.runNamedAnchorWith(st, anchor, pos, nil)
+}
+
+func (c *ExecCtx) runNamedAnchorWith(st *State, anchor string, pos token.Pos, binds map[string]Val) {
 	if c.spec == nil || c.depth > 0 {
 		return
 	}
 	for _, g := range c.spec.Ghosts {
 		if g.Anchor == anchor {
 			g.used = true
-			c.execGhost(st, g, pos)
+			c.execGhostWith(st, g, pos, binds)
 		}
 	}
 }
@@ -1168,8 +1177,9 @@ func (c *ExecCtx) runCallAnchors(st *State, fn *types.Func, call *ast.CallExpr, 
 		return
 	}
 	name := fn.Name()
+	ord := c.callOrdinal(call, name)
 	for _, g := range root.spec.Ghosts {
-		if g.Anchor == "call("+name+")" || g.Anchor == "call("+exprString(call.Fun)+")" {
+		if g.Anchor == "call("+name+")" || g.Anchor == "call("+exprString(call.Fun)+")" || g.Anchor == fmt.Sprintf("call(%s)#%d", name, ord) {
 			g.used = true
 			binds := map[string]Val{}
 			for i, r := range res {
@@ -1303,3 +1313,63 @@ func (env *SpecEnv) ghostHeap(base Val, name string) (string, string, bool) {
 }
 
 var _ = constant.MakeBool
+
+
+// callOrdinal: index of this call among the calls to functions named `name`
+// in the enclosing function body (source order).
+func (c *ExecCtx) callOrdinal(call *ast.CallExpr, name string) int {
+	var body ast.Node
+	if c.lit != nil {
+		body = c.lit.Body
+	} else if c.fn != nil {
+		body = c.fn.Decl.Body
+	}
+	if body == nil {
+		return -1
+	}
+	n, found := 0, -1
+	ast.Inspect(body, func(x ast.Node) bool {
+		if found >= 0 {
+			return false
+		}
+		if ce, ok := x.(*ast.CallExpr); ok {
+			if calleeName(ce) == name {
+				if ce == call {
+					found = n
+					return false
+				}
+				n++
+			}
+		}
+		return true
+	})
+	return found
+}
+
+
+func (c *ExecCtx) runBeforeCallAnchors(st *State, fn *types.Func, call *ast.CallExpr, recv *Val, args []Val) {
+	if c.spec == nil || len(c.spec.Ghosts) == 0 || c.depth > 0 {
+		return
+	}
+	name := fn.Name()
+	ord := -2
+	for _, g := range c.spec.Ghosts {
+		if !strings.HasPrefix(g.Anchor, "before call(") {
+			continue
+		}
+		if ord == -2 {
+			ord = c.callOrdinal(call, name)
+		}
+		if g.Anchor == "before call("+name+")" || g.Anchor == fmt.Sprintf("before call(%s)#%d", name, ord) {
+			g.used = true
+			binds := map[string]Val{}
+			for i, a := range args {
+				binds[fmt.Sprintf("ʃarg%d", i)] = a
+			}
+			if recv != nil {
+				binds["ʃrecv"] = *recv
+			}
+			c.execGhostWith(st, g, call.Pos(), binds)
+		}
+	}
+}
